@@ -40,6 +40,20 @@ Definition model2 : node :=
 Example reloadable_inhabited : reloadable model2 = true /\ reloadable emcee = true.
 Proof. split; vm_compute; reflexivity. Qed.
 
+(* the facts read from the source are one of the two states the theorems speak about *)
+Example code_facts :
+  (compound_idf = None \/ exists fs, compound_idf = Some fs) /\
+  (reload_restores_item_number = false \/ reload_restores_item_number = true) /\
+  (log_gaussian_dict = false \/ log_gaussian_dict = true) /\
+  (drawer_json_readable = false \/ drawer_json_readable = true).
+Proof.
+  repeat split.
+  - destruct compound_idf as [fs|]; [right; exists fs; reflexivity | left; reflexivity].
+  - destruct reload_restores_item_number; [right | left]; reflexivity.
+  - destruct log_gaussian_dict; [right | left]; reflexivity.
+  - destruct drawer_json_readable; [right | left]; reflexivity.
+Qed.
+
 (* contexts exist: the `b` attribute of the model stored under "source" *)
 Example nframe_inhabited :
   nframe (fun x => NColl 5 0 ([("lens", A2 3 (u01 1) (NFloat 2))] ++
